@@ -5,6 +5,7 @@ histories — valid and invalid — against the real registries after every step
 -/
 import QuantityModel.Proofs.Registry
 import QuantityModel.Proofs.Invariants
+import QuantityModel.Proofs.Scale
 namespace QM.Props.C15
 open QM
 
@@ -21,7 +22,7 @@ theorem makeUnit_preserves_symbols (s : RegState) (c : Nat) (sym : String)
     (h : s.makeUnit c sym defn isRef = .ok (s', uid))
     (hu : SymbolsUnique s) (hp : SymbolsPointBack s) :
     SymbolsUnique s' ∧ SymbolsPointBack s' := by
-  obtain ⟨huid, hunits, hsym, -, -, hmap, hnot, -, -, -, -, -⟩ := makeUnit_effect s c sym defn isRef s' uid h
+  obtain ⟨huid, hunits, hsym, -, -, hmap, hnot, -, -, -, -, -, -, -⟩ := makeUnit_effect s c sym defn isRef s' uid h
   constructor
   · unfold SymbolsUnique at *
     rw [hmap, List.map_append, List.nodup_append]
@@ -45,7 +46,7 @@ theorem makeUnit_lookup (s : RegState) (c : Nat) (sym : String) (defn : Option I
     (isRef : Bool) (s' : RegState) (uid : Nat)
     (h : s.makeUnit c sym defn isRef = .ok (s', uid)) :
     s'.symMap.lookup sym = some uid := by
-  obtain ⟨-, -, -, -, -, hmap, hnot, -, -, -, -, -⟩ := makeUnit_effect s c sym defn isRef s' uid h
+  obtain ⟨-, -, -, -, -, hmap, hnot, -, -, -, -, -, -, -⟩ := makeUnit_effect s c sym defn isRef s' uid h
   rw [hmap]
   have : s.symMap.lookup sym = none := lookup_none_of_not_mem _ _ hnot
   rw [List.lookup_append, this]; simp
@@ -148,5 +149,135 @@ theorem reachable_directories_coherent (s : RegState) (h : Reachable s) :
 own normalised definitions: the hypothesis of C02 / C10 / C17 always holds -/
 theorem reachable_term_directory_sound (s : RegState) (h : Reachable s) : TermMapSound s :=
   (reachable_dirInv h).termMapSound
+
+/-! ### the scale a definition denotes — closed form, every reachable state
+
+`ReachableWF` : states reached from `import quantity` by ANY sequence of
+declarations (accepted or rejected) whose definitions mention existing units
+and do not denote zero.  `s.nu u` is the scale stored for `u` (1 for a unit
+without one). -/
+
+theorem liftMake_ok (s s' : RegState) (r : Except DeclErr (RegState × Nat)) (uid : Nat)
+    (h : liftMake s r = (s', .ok uid)) : r = .ok (s', uid) := by
+  unfold liftMake at h
+  cases r with
+  | error e => simp at h
+  | ok p => obtain ⟨a, b⟩ := p; simp only [Prod.mk.injEq, Except.ok.injEq] at h; rw [h.1, h.2]
+
+/-- `cls.new_unit(sym, define_as = a * u)` : the new unit's scale is exactly
+`a · scale(u)` -/
+theorem scale_of_multiple (s s' : RegState) (h : ReachableWF s) (c : Nat) (sym : String) (a : Rat)
+    (u uid : Nat) (ha : a ≠ 0) (hu : u < s.units.length)
+    (hok : s.newUnit c (some sym) (.qty a u) = (s', .ok uid)) :
+    (s'.unit uid).equiv = some (a * s.nu u) := by
+  have hS := reachableWF_scaleInv h
+  have hA := admissible_nu s hS
+  unfold RegState.newUnit at hok
+  simp only at hok
+  split at hok
+  · simp at hok
+  · split at hok
+    · simp at hok
+    · rename_i defn heq
+      split at heq
+      · cases heq
+      · simp only [Except.ok.injEq] at heq
+        subst heq
+        have hm := liftMake_ok _ _ _ _ hok
+        have hden : den s.nu (mkTerm s.unitEnv [(.num a, 1), (.atom u, 1)]) = a * s.nu u := by
+          rw [den_mkTerm _ s.nu hA.nz hA.resp]
+          simp only [den_cons, den_nil, evalElem, zpow_one, mul_one]
+        have := (makeUnit_scale s s' c sym _ uid hm hS
+          (by
+            intro x hx
+            have := mkTerm_atoms _ _ x hx
+            simp only [atomsOf, List.filterMap_cons, List.filterMap_nil, List.mem_singleton] at this
+            subst this; exact hu)
+          (by rw [hden]; exact mul_ne_zero ha (hA.nz u))).1
+        rw [this, hden]
+
+/-- `cls.new_unit(sym, define_as = term)` : the new unit's scale is exactly
+what the term denotes, `factor · ∏ scale(uᵢ)^eᵢ` -/
+theorem scale_of_term_definition (s s' : RegState) (h : ReachableWF s) (c : Nat) (sym : String)
+    (t : Items) (uid : Nat) (hv : ∀ a ∈ atomsOf t, a < s.units.length) (hn : den s.nu t ≠ 0)
+    (hok : s.newUnit c (some sym) (.term t) = (s', .ok uid)) :
+    (s'.unit uid).equiv = some (den s.nu t) := by
+  have hS := reachableWF_scaleInv h
+  unfold RegState.newUnit at hok
+  simp only at hok
+  split at hok
+  · simp at hok
+  · split at hok
+    · simp at hok
+    · rename_i defn heq
+      have hd : defn = some t := by
+        split at heq
+        · cases heq
+        · cases heq
+        · split at heq
+          · cases heq
+          · simp only [Except.ok.injEq] at heq; exact heq.symm
+      subst hd
+      exact (makeUnit_scale s s' c sym t uid (liftMake_ok _ _ _ _ hok) hS hv hn).1
+
+/-- `cls.derive_unit_from(u₁, …, uₙ)` for a type defined as `∏ Bᵢ^eᵢ` : the new
+unit's scale is exactly `∏ scale(uᵢ)^eᵢ` -/
+theorem scale_of_derived_unit (s s' : RegState) (h : ReachableWF s) (c : Nat) (args : List Nat)
+    (sym : Option String) (uid : Nat) (cdef : Items) (hc : (s.cls c).defn = some cdef)
+    (hv : ∀ u ∈ args, u < s.units.length)
+    (hok : s.deriveUnit c args sym = (s', .ok uid)) :
+    (s'.unit uid).equiv =
+      some (den s.nu ((cdef.zip args).map fun (it, u) => (Elem.atom u, it.2))) := by
+  have hS := reachableWF_scaleInv h
+  have hA := admissible_nu s hS
+  have key : ∀ sy, liftMake s (s.makeUnit c sy (some (mkTerm s.unitEnv
+      ((cdef.zip args).map fun (it, u) => (Elem.atom u, it.2)))) false) = (s', .ok uid) →
+      (s'.unit uid).equiv =
+        some (den s.nu ((cdef.zip args).map fun (it, u) => (Elem.atom u, it.2))) := by
+    intro sy hl
+    have hm := liftMake_ok _ _ _ _ hl
+    have hden := den_mkTerm s.unitEnv s.nu hA.nz hA.resp
+      ((cdef.zip args).map fun (it, u) => (Elem.atom u, it.2))
+    have := (makeUnit_scale s s' c sy _ uid hm hS
+      (by
+        intro a ha
+        have := mkTerm_atoms _ _ a ha
+        rw [mem_atomsOf] at this
+        obtain ⟨e, he⟩ := this
+        simp only [List.mem_map, Prod.mk.injEq, Elem.atom.injEq] at he
+        obtain ⟨⟨it, u⟩, hz, rfl, _⟩ := he
+        exact hv u (List.of_mem_zip hz).2)
+      (by
+        rw [hden]
+        apply den_ne_zero_of_atoms _ hA.nz
+        intro it hit
+        simp only [List.mem_map] at hit
+        obtain ⟨⟨x, u⟩, _, rfl⟩ := hit
+        left; exact ⟨u, rfl⟩)).1
+    rw [this, hden]
+  unfold RegState.deriveUnit at hok
+  simp only [hc] at hok
+  repeat' (first
+    | (simp only [Prod.mk.injEq, reduceCtorEq, and_false] at hok; done)
+    | exact key _ hok
+    | split at hok)
+
+/-- in every such state the scale invariant holds: base units define
+themselves; a derived unit's stored scale is the numeric part of its
+normalised definition, whose other elements are existing base units; reference
+units have scale 1; no scale is zero -/
+theorem reachable_scale_invariant (s : RegState) (h : ReachableWF s) : ScaleInv s :=
+  reachableWF_scaleInv h
+
+/-- … and the valuation "unit ↦ stored scale" is admissible: the hypotheses
+`Admissible s ν` of the C01 / C02 / C10 / C17 theorems are satisfiable in
+every such state (non-vacuity for every history, not for one example) -/
+theorem reachable_admissible (s : RegState) (h : ReachableWF s) : Admissible s s.nu :=
+  admissible_nu s (reachableWF_scaleInv h)
+
+/-- the reference unit of every type exists and has scale 1 -/
+theorem reachable_ref_unit_scale_one (s : RegState) (h : ReachableWF s) (c r : Nat)
+    (hr : (s.cls c).refUnit = some r) : r < s.units.length ∧ (s.unit r).equiv = some 1 :=
+  (reachableWF_scaleInv h).refs c r hr
 
 end QM.Props.C15
